@@ -507,7 +507,6 @@ package lang
 //@ func (*Fork).Execute [C05 C28]
 //@   check none
 //@   scope functional
-//@   requires fork != nil
 //@   at call runModeNormal#1 assert fork.RunMode == runmode.Default || fork.RunMode == runmode.Normal
 //@   at call runModeNormal#2 assert fork.RunMode == runmode.BlockUnsafe || fork.RunMode == runmode.FunctionUnsafe || fork.RunMode == runmode.ModuleUnsafe
 //@   at call runModeTry#1 assert (fork.RunMode == runmode.BlockTry || fork.RunMode == runmode.FunctionTry || fork.RunMode == runmode.ModuleTry) && arg1 == _TRY_EXIT_NUM
